@@ -414,7 +414,7 @@ func (c *Ctx) tok11() {
 	}
 	// responders take the callback out of its registry before answering
 	resp := c.acc("TOK-11", nil, "callback-answered-only-after-removal-from-registry")
-	for _, fn := range c.funcs {
+	for _, fn := range c.analysed() {
 		for _, p := range c.Paths("TOK-11", fn) {
 			for i := range p.Events {
 				e := &p.Events[i]
@@ -467,7 +467,7 @@ func (c *Ctx) tok11() {
 func (c *Ctx) pan2() {
 	lockWrite := c.Fn("PAN-2", "(*Client).lockWrite")
 	n := 0
-	for _, fn := range c.funcs {
+	for _, fn := range c.analysed() {
 		var a *acc
 		for _, p := range c.Paths("PAN-2", fn) {
 			for i := range p.Events {
